@@ -89,6 +89,31 @@ CLAIMED.update({
         design="6/C20"),
 })
 
+CLAIMED.update({
+    "C10": dict(
+        technique="Lean 4 proof: complete kernel evaluation (decide +kernel) of mustFetch/mustNot vs the modelled substring heuristics over a finite representative universe, unbounded filter/group lemmas; group-by-group correspondence with get_metadata_files on random universes",
+        text=("C10_must / C10_mustnot are decided for all 243 configurations x 90 entries of the universe in Props/C10.lean (a finite-universe "
+              "theorem, labelled as such); C10_filtered, C10_group_any_variant, C10_variant_size are unbounded; Model/Release.lean's "
+              "metadataFiles is compared with the real get_metadata_files on random component/architecture universes, and the structured "
+              "mustFetch/mustNot spec is evaluated on the real selection."),
+        note="Finite universe for the substring heuristics; the general statement over all good names is not proved (DESIGN §9). Trusted: Lean kernel, model, harness tokeniser (python-debian is third-party).",
+        design="6/C10"),
+    "C11": dict(
+        technique="Lean 4 proof (sequential check <-> pairwise agreement; permutation invariance; round counting of the release loop) + verdict correspondence and end-to-end round/exit monitors",
+        text=("C11_validate_iff, C11_codename_iff, C11_order_independent, C11_only_sections, C11_rounds_first, C11_rounds_all_invalid proved for "
+              "all release file lists; real validate_release_files is compared with the model and an independent pairwise spec on mutated "
+              "pairs; end-to-end runs with k inconsistent rounds check the number of rounds, exit status and that nothing is published."),
+        note="Release tokenisation by python-debian is exercised, not modelled (S12). Trusted: Lean kernel, model, harness.",
+        design="6/C11"),
+    "C16": dict(
+        technique="Lean 4 proof (decision table, alias list, layout as corollary of the L1 acceptance theorem, fallback unfolding) + variant-path correspondence + end-to-end layout/fallback/off monitors",
+        text=("C16_table, C16_allPaths, C16_canonical_always, C16_layout, C16_fallback, C16_off, C16_variant_flag proved; real variants' "
+              "use_by_hash/get_all_paths/get_source_path compared with the model; end-to-end runs over flag x option x availability "
+              "patterns check aliases (one inode), canonical fallback and absence of any by-hash request/path when off."),
+        note="Indices with identical content in one directory share a by-hash target (F-C05a) and are excluded by the generator. Trusted: Lean kernel, model, harness.",
+        design="6/C16"),
+})
+
 NOT_YET = {}
 
 
